@@ -803,6 +803,28 @@ func (c *EvalCtx) call(n *Node) Val {
 			}
 		}
 		return mkInt(cnt)
+	case "map_put":
+		// setup only: map_put(m, k, v) stores an entry in the scenario's initial state
+		m, ok := arg(0).(MapV)
+		if !ok || m.Cell == 0 {
+			specErr(n, "map_put: non-nil map expected")
+		}
+		ma := c.st.Heap[m.Cell].(*MapAgg)
+		nm := &MapAgg{Keys: append(append([]Val{}, ma.Keys...), arg(1)), Vals: append(append([]Val{}, ma.Vals...), arg(2)), Unknown: ma.Unknown, Tag: ma.Tag}
+		c.st.Heap[m.Cell] = nm
+		return tTrue
+	case "new_decl":
+		// setup only: new_decl("Name") is a *codegen.TypeDecl still under construction
+		// (no Type yet), as generateDeclaredType registers it before recursing
+		nmT, ok := arg(0).(Text)
+		if !ok || c.ex == nil {
+			specErr(n, "new_decl: name expected")
+		}
+		dt := c.ex.w.namedType("pkg/codegen", "TypeDecl")
+		r := c.st.alloc(mkStruct(dt, map[string]Val{"Name": nmT}))
+		delete(c.st.Fresh, r.Cell)
+		c.st.CellTypes[r.Cell] = dt
+		return r
 	case "fresh_map":
 		m, ok := arg(0).(MapV)
 		if !ok || m.Cell == 0 {
